@@ -19,7 +19,25 @@ import (
 
 type symVal interface{}
 
-type symCell struct{ v symVal }
+type symCell struct {
+	v symVal
+	// a local (non-escaping) struct variable: one cell per field
+	local  bool
+	fields map[string]*symCell
+}
+
+// symStruct is a struct value read out of (or about to be copied into) a local struct variable.
+type symStruct map[string]symVal
+
+func (c *symCell) field(name string) *symCell {
+	if c.fields == nil {
+		c.fields = map[string]*symCell{}
+	}
+	if c.fields[name] == nil {
+		c.fields[name] = &symCell{}
+	}
+	return c.fields[name]
+}
 
 type symFieldAddr struct {
 	base  symVal
@@ -170,11 +188,18 @@ func (m *symMachine) run(fn *ssa.Function, params []symVal, binds []symVal) []sy
 			switch x := in.(type) {
 			case *ssa.Phi, *ssa.DebugRef:
 			case *ssa.Alloc:
-				env[x] = &symCell{}
+				_, isStruct := x.Type().Underlying().(*types.Pointer).Elem().Underlying().(*types.Struct)
+				env[x] = &symCell{local: isStruct && !x.Heap}
 			case *ssa.Store:
 				switch a := eval(x.Addr).(type) {
 				case *symCell:
-					a.v = eval(x.Val)
+					if sv, isS := eval(x.Val).(symStruct); isS && a.local {
+						for k, fv := range sv {
+							a.field(k).v = fv
+						}
+					} else {
+						a.v = eval(x.Val)
+					}
 				case symFieldAddr:
 					m.event("store %s.%s = %s", symStr(a.base), a.field, symStr(eval(x.Val)))
 				default:
@@ -185,7 +210,15 @@ func (m *symMachine) run(fn *ssa.Function, params []symVal, binds []symVal) []sy
 				case token.MUL:
 					switch a := eval(x.X).(type) {
 					case *symCell:
-						env[x] = a.v
+						if a.local && a.fields != nil {
+							sv := symStruct{}
+							for k, fc := range a.fields {
+								sv[k] = fc.v
+							}
+							env[x] = sv
+						} else {
+							env[x] = a.v
+						}
 					case symFieldAddr:
 						env[x] = symStr(a.base) + "." + a.field
 					default:
@@ -202,10 +235,18 @@ func (m *symMachine) run(fn *ssa.Function, params []symVal, binds []symVal) []sy
 				}
 			case *ssa.FieldAddr:
 				_, f, _ := ir.FieldAddr(x)
-				env[x] = symFieldAddr{eval(x.X), f}
+				if lc, isL := eval(x.X).(*symCell); isL && lc.local {
+					env[x] = lc.field(f)
+				} else {
+					env[x] = symFieldAddr{eval(x.X), f}
+				}
 			case *ssa.Field:
 				_, f, _ := ir.FieldLoad(x)
-				env[x] = symStr(eval(x.X)) + "." + f
+				if sv, isS := eval(x.X).(symStruct); isS {
+					env[x] = sv[f]
+				} else {
+					env[x] = symStr(eval(x.X)) + "." + f
+				}
 			case *ssa.Extract:
 				if tup, ok := eval(x.Tuple).([]symVal); ok && x.Index < len(tup) {
 					env[x] = tup[x.Index]
